@@ -108,6 +108,9 @@ pub enum HOp {
     ReleaseBatch,
     ReleaseAll,
     Reopen,
+    /// `close()` is called while a flusher batch's device writes are still gated: it must not return before they
+    /// completed (reported as `early=`); then the gate is opened, close finishes, the cache is reopened
+    ReopenRaced,
 }
 
 pub fn size_of(sz: char) -> usize {
@@ -284,6 +287,7 @@ impl HExec {
             HOp::ReleaseBatch => "op=releasebatch".into(),
             HOp::ReleaseAll => "op=releaseall".into(),
             HOp::Reopen => "op=reopen".into(),
+            HOp::ReopenRaced => "op=reopen raced=1".into(),
         }
     }
 
@@ -294,6 +298,7 @@ impl HExec {
         match op {
             HOp::Wait | HOp::Reopen | HOp::Clear => !gated && !self.held && pending == 0,
             HOp::ReleaseBatch => gated && pending > 0,
+            HOp::ReopenRaced => gated && pending > 0 && !self.held && self.cfg.flushers == 1,
             HOp::ReleaseAll => gated || pending > 0,
             // completion-order control is modelled for a single flusher (one batch in flight at a time)
             HOp::Gate => !gated && !self.held && self.cfg.flushers == 1,
@@ -449,6 +454,42 @@ impl HExec {
                         break;
                     }
                 }
+            }
+            HOp::ReopenRaced => {
+                let c = self.cache.take().unwrap();
+                drop(cache);
+                let h = self.rt.spawn(async move {
+                    let r = c.close().await;
+                    drop(c);
+                    r
+                });
+                // give close() every chance to return: it must not, the batch in flight is not on the device yet
+                for _ in 0..5 {
+                    self.settle();
+                }
+                // (block-cleaning writes of the reclaimer are all-zero pages; close does not have to wait for them)
+                let first_block = if self.cfg.tomb { 1 } else { 0 };
+                let batch_pending = self
+                    .sim
+                    .pending_recs()
+                    .iter()
+                    .any(|w| w.partition >= first_block && !w.data.iter().all(|b| *b == 0));
+                let early = h.is_finished() && batch_pending;
+                self.sim.set_gated(false);
+                for _ in 0..50 {
+                    self.sim.release_all();
+                    self.settle();
+                    if self.sim.pending_ids().is_empty() && h.is_finished() {
+                        break;
+                    }
+                }
+                let r = self.rt.block_on(h);
+                if !matches!(r, Ok(Ok(_))) {
+                    ret = "err".into();
+                }
+                let _ = write!(line, " early={}", early as u8);
+                self.settle();
+                self.open();
             }
             HOp::Reopen => {
                 let c = self.cache.take().unwrap();
@@ -672,6 +713,9 @@ pub fn gen_op(rng: &mut Rng, ex: &HExec, o: GenOpts) -> HOp {
         if o.reopen && rng.chance(1, 12) && ex.enabled(&HOp::Reopen) {
             return HOp::Reopen;
         }
+        if o.reopen && rng.chance(1, 3) && ex.enabled(&HOp::ReopenRaced) {
+            return HOp::ReopenRaced;
+        }
         let op = match rng.below(100) {
             0..=27 => HOp::Ins {
                 k: rng.below(keys),
@@ -821,7 +865,7 @@ pub fn parse_op(f: &BTreeMap<String, String>) -> Option<HOp> {
         "gate" => HOp::Gate,
         "releasebatch" => HOp::ReleaseBatch,
         "releaseall" => HOp::ReleaseAll,
-        "reopen" => HOp::Reopen,
+        "reopen" => if f.get("raced").map(|s| s == "1").unwrap_or(false) { HOp::ReopenRaced } else { HOp::Reopen },
         _ => return None,
     })
 }
